@@ -191,6 +191,19 @@ func recursionShape(n datamodel.Node) (edges int, limit int64) {
 	return edges, limit
 }
 
+// PathLoadedTwice reports whether the traversal loads a link at one and the same path more than once (a
+// union of explorers that overlap does that).
+func (r *Ref) PathLoadedTwice() bool {
+	seen := map[string]bool{}
+	for _, l := range r.Loads {
+		if seen[l.Path] {
+			return true
+		}
+		seen[l.Path] = true
+	}
+	return false
+}
+
 func isSkip(err error) bool {
 	_, ok := err.(traversal.SkipMe)
 	return ok
